@@ -1,5 +1,5 @@
 (* C19: concrete instances - the hypotheses of the theorems are satisfiable, the statements say
-   something on real data; the one refuted clause (termination of self-extension) with its witness *)
+   something on real data *)
 From Coq Require Import ZArith List Bool Lia.
 From DV Require Import Model.PyPrims Model.C19Model Proofs.C19Alist Proofs.C19Rows Proofs.C19Cols Proofs.C19Concat Proofs.C19Proofs Proofs.C19Step.
 Import ListNotations.
@@ -26,8 +26,7 @@ Definition ex_m2 : matrix := mkM 0 None [(1, [3])] [].
 Definition ex_m3 : matrix := mkM 1 (Some 10) [(100, [1; 0])] [].
 Definition ex_w : world := mkW [(0, [0; 1]); (1, [100])] [(0, ex_m0); (1, ex_m1); (2, ex_m2); (3, ex_m3)] 4.
 Definition ex_taxa := taxa_of ex_w.
-Notation ex_step := (step ex_lower ex_suffix ex_locus true).
-Notation ex_step_repaired := (step ex_lower ex_suffix ex_locus false).
+Notation ex_step := (step ex_lower ex_suffix ex_locus).
 
 Ltac nodup := repeat constructor; simpl; intuition lia.
 
@@ -115,26 +114,10 @@ Proof. vm_compute. reflexivity. Qed.
 Example ex_step_foreign : ex_step ex_w (UpdateSeqs 0 3) = (ex_w, OErr ValueErr).
 Proof. vm_compute. reflexivity. Qed.
 
-(* REFUTED clause: "every operation terminates" fails for a matrix extended by itself *)
-Lemma self_extend_hangs : ex_step ex_w (ExtendMatrix 0 0) = (ex_w, OErr Hang) /\
-                          ex_step ex_w (ExtendSeqs 0 0 false) = (ex_w, OErr Hang).
+(* a matrix extended by itself: every sequence doubled (CharacterDataSequence.extend materialises
+   its argument; before repair 99e94739 these two calls did not return) *)
+Example self_extend_doubles :
+  fst (ex_step ex_w (ExtendMatrix 0 0))
+  = mkW (w_nss ex_w) [(0, mkM 0 (Some 10) [(1, [0; 1; 0; 1]); (0, [1; 1; 1; 1])] []); (1, ex_m1); (2, ex_m2); (3, ex_m3)] 4 /\
+  ex_step ex_w (ExtendSeqs 0 0 false) = ex_step ex_w (ExtendMatrix 0 0).
 Proof. vm_compute. split; reflexivity. Qed.
-
-Lemma all_operations_terminate_refuted_l :
-  exists (lower : lbl -> lbl) (suffix : lbl -> Z -> lbl) (locus : Z -> lbl) (w : world) (o : op),
-    (forall l i j, lower (suffix l i) = lower (suffix l j) -> i = j) /\ wf_world w /\
-    snd (step lower suffix locus true w o) = OErr Hang.
-Proof.
-  exists ex_lower, ex_suffix, ex_locus, ex_w, (ExtendMatrix 0 0).
-  split; [exact ex_suffix_inj|]. split; [exact ex_w_wf|]. vm_compute. reflexivity.
-Qed.
-
-(* with the repair (argument materialised first) the same calls double every sequence *)
-Example self_extend_repaired :
-  fst (ex_step_repaired ex_w (ExtendMatrix 0 0))
-  = mkW (w_nss ex_w) [(0, mkM 0 (Some 10) [(1, [0; 1; 0; 1]); (0, [1; 1; 1; 1])] []); (1, ex_m1); (2, ex_m2); (3, ex_m3)] 4.
-Proof. vm_compute. reflexivity. Qed.
-
-(* ... and the divergence is real, not an artefact of the fuel: no amount of fuel suffices *)
-Lemma self_extend_diverges_l : forall (fuel : nat) (c : cell) (r : row), extend_live fuel (c :: r) 0 = OutOfFuel.
-Proof. intros fuel c r. apply extend_live_diverges. simpl. lia. Qed.
